@@ -584,7 +584,13 @@ func (g *gen) xgoStmt(b *sb, d int) bool {
 	i := idx[g.c.Int(len(idx))]
 	x := g.xgo[g.imps[i].xgo-1]
 	p := g.imp(i)
-	switch g.c.Int(4) {
+	switch g.c.Int(6) {
+	case 4:
+		b.line("%s.G__1(%s, %s)", p, []string{"true", "false", g.expr("bool", d-1)}[g.c.Int(3)], g.expr("string", d-1))
+		return true
+	case 5:
+		b.line("%s.G__0(%s.Opt{On: %s}, %s)", p, p, []string{"true", "false"}[g.c.Int(2)], g.expr("int", d-1))
+		return true
 	case 0:
 		if x.Families > 0 {
 			f := g.c.Int(x.Families)
